@@ -161,6 +161,7 @@ func runSrvCase(c SrvCase) (*failure, bool) {
 		panic("C09 harness: cannot start miniredis: " + err.Error())
 	}
 	ctx := context.Background()
+	watch := startWatch()
 	arm := &faultArm{}
 	st1, st2 := srvStores(c.Backend, arm)
 	srv, err := miniserver.New(miniserver.Options{Storage: st1, NodeID: "node-1", RoutingTTL: 30 * time.Second, NoSecurityGate: true})
@@ -232,6 +233,10 @@ func runSrvCase(c SrvCase) (*failure, bool) {
 			for deadline := time.Now().Add(2 * time.Second); err != nil && isGoneErr(err) && time.Now().Before(deadline); {
 				time.Sleep(5 * time.Millisecond)
 				st, err = tb.LookupWaitingTunnel(ctx, o.tid)
+			}
+			if err != nil && isGoneErr(err) && watch.suspect(12*time.Second) {
+				vkit.Skipped(1) // stalled or suspended process: the 30 s waiting period may really have lapsed
+				return nil
 			}
 			if err != nil {
 				shape := errShape(err)
